@@ -761,8 +761,12 @@ class C16(Property):
                     else:
                         ops.append(["get", k])
                 ops += probes()
-                if rng.random() < 0.5:
-                    ops += [["rangestop", rng.choice([1, 2, 5, len(sim.old), len(sim.old) + 1, 10 ** 6])], ["range"]]
+                # both generations are populated: stop Range inside dirtyOld, at its last pair, inside dirtyNew
+                if sim.draining() and not sim.new:
+                    do(["set", K + 1, 3])
+                for n in [1, rng.choice([2, 5, len(sim.old) - 1]), len(sim.old), len(sim.old) + 1, 10 ** 6]:
+                    ops.append(["rangestop", n])
+                ops.append(["range"])
             elif ph == "mig2" and sim.draining():
                 # deletionNew climbs to maxDeletion: dirtyNew is copied back into dirtyOld
                 need = md - sim.dn
@@ -902,6 +906,50 @@ class C16(Property):
                 obs.append(o)
         return obs
 
+    # ------------------------------------------------------------------ direct monitor
+    def extra(self, ctx):
+        """Thorough tier: the executor built with -race; free-running goroutines on one Cache /
+        SafeMap / Queue / Ring / RollingWindow (3..4 goroutines, up to 14 calls, after sequential
+        prefixes that put the object next to a growth / migration / eviction).  A data race is a
+        failure; so is a history with no linearisation (judged by Check.prop_ok against the
+        sequential reference models; the search is exact: Props.linearisation_search_is_exact)."""
+        if ctx.tier != "thorough":
+            return []
+        import random
+        ok, res = vlib.go_build("c16race", overlay=self._overlay(), race=True)
+        if not ok:
+            raise ExecError("c16race does not build: %s" % res[-2000:])
+        rng = random.Random(ctx.seed * 31 + 16)
+        cases = []
+        for i in range(900):
+            c = self._gen_lin(rng, "thorough")
+            if i % 3 == 0 and len(c["threads"]) == 3 and sum(len(t) for t in c["threads"]) <= 10:
+                c["threads"].append(list(c["threads"][0]))     # a fourth goroutine repeating the first script
+            c["id"] = i
+            cases.append(c)
+        ctx.checker_cmds.append("harness/bin/c16race (go build -race): %d free-running histories on Cache/SafeMap/Queue/Ring/RollingWindow"
+                                % len(cases))
+        rc, out, rs = vlib.go_run(res, cases, tag="c16race", timeout=1500, env={"GORACE": "halt_on_error=1 exitcode=66"})
+        if "DATA RACE" in out or rc == 66:
+            return [{"what": "data race in core/collection under concurrent use of one object", "replay": out[-4000:]}]
+        if rc != 0 or len(rs) != len(cases):
+            raise ExecError("c16race rc=%s: %s" % (rc, out[-2000:]))
+        obs = [{"obs": r.get("obs") or [], "free": r.get("free"), **({"err": r["err"]} if r.get("err") else {})} for r in rs]
+        terms = [self.coq_case(c, o) for c, o in zip(cases, obs)]
+        ev = vlib.coq_eval_cases(self.id, self.check_module, terms)
+        bad = [(c, o) for c, o, (a, p) in zip(cases, obs, ev) if not p]
+        only_model = sum(1 for (a, p) in ev if p and not a)
+        overl = sum(1 for c, o in zip(cases, obs) if self.nontrivial(c, o))
+        ctx.notes.append("race monitor: %d free-running histories (%d with overlapping calls), %d not linearisable, "
+                         "%d linearisable against the reference but not against the transcribed model"
+                         % (len(cases), overl, len(bad), only_model))
+        res = [{"what": self.describe_failure(c, o), "replay": {"case": c, "observed": o}} for c, o in bad[:3]]
+        if only_model and not res:
+            c, o = next((c, o) for c, o, (a, p) in zip(cases, obs, ev) if p and not a)
+            res.append({"what": "free-running history explained by the reference model but not by the transcribed model "
+                                "(model and implementation disagree)", "replay": {"case": c, "observed": o}})
+        return res
+
     # ------------------------------------------------------------------ rendering
     def coq_case(self, case, obs):
         k = case["kind"]
@@ -981,10 +1029,17 @@ class C16(Property):
             # a panic / deadlock / missing call: an event no sequential run explains
             evs.append("mkLev 0 0 %s (ONum (-424242))" % ren(case["threads"][0][0]))
         else:
-            for script, f in zip(case["threads"], free):
-                for o, e in zip(script, f):
-                    evs.append("mkLev %s %s %s (%s)" % (cz(e["s"]), cz(e["e"]), self._paren(ren(o)),
-                                                        _obs(e["obs"]) if e.get("obs") is not None else "OUnit"))
+            allev = [(o, e) for script, f in zip(case["threads"], free) for o, e in zip(script, f)]
+            for o, e in allev:
+                term = ren(o)
+                r = e.get("obs")
+                if obj == "cache" and o[0] == "take" and r and r[0] == "take" and r[2] is False and r[1] is not None:
+                    # not loaded: a hit, or the result of an overlapping Take's single flight
+                    if any(o2[0] == "take" and o2[1] == o[1] and r2 and r2[0] == "take" and r2[2] is True and r2[1] == r[1]
+                           and e2["s"] < e["e"] and e["s"] < e2["e"] for o2, e2 in allev for r2 in [e2.get("obs")]):
+                        term = "CJoin %s %s" % (cz(o[1]), cz(r[1]))
+                evs.append("mkLev %s %s %s (%s)" % (cz(e["s"]), cz(e["e"]), self._paren(term),
+                                                    _obs(r) if r is not None else "OUnit"))
         ev = clist(evs)
         if obj == "queue":
             return "KLinQueue %s %s %s" % (cz(case["size"]), clist([self._qop(o) for o in case["pre"]]), ev)
